@@ -9,7 +9,7 @@ from cxxheaderparser.lexer import LexerTokenStream, PlyLexer, LexError
 TECHNIQUE = 'Lean 4: partition theorem of the PLY loop for every rule set and input (token is a prefix; texts + skipped pieces = input), keyword theorem on the regenerated keyword set, matcher = priority-order paths; token-by-token correspondence with PlyLexer; literal/punctuator oracles'
 LEAN_TARGET = "CxxModel.Props.C08"
 THEOREMS = ["Cxx.C08_token_is_prefix", "Cxx.C08_partition", "Cxx.C08_keyword_never_name", "Cxx.C08_matcher_is_paths", "Cxx.C08_name_rule", "Cxx.rules_supported",
-            "Cxx.lexer_helpers_standard"]
+            "Cxx.lexer_helpers_standard", "Cxx.C08_rules_count_lines", "Cxx.C08_lineno", "Cxx.plyToken_lineno"]
 ANCHORS = ["lexer.py:", "lex.py:Lexer.token", "lex.py:Lexer.clone", "lex.py:Lexer.input"]
 RULE = ("texts over the token alphabet with arbitrary separators (blanks, tabs, LF, CRLF, comments, continuations), every literal of "
         "the literal grammar (all integer bodies x suffixes, floats, hex floats, character and string literals x prefixes x "
@@ -19,7 +19,8 @@ CARRIED_BY = {
     "each raw token is a prefix of the remaining input; the token texts plus the skipped pieces reproduce the input": "theorems C08_token_is_prefix, C08_partition (every rule set, every input)",
     "keywords are never plain names": "theorem C08_keyword_never_name (action of t_NAME, regenerated keyword set)",
     "matcher semantics = Python re priority semantics on the rules": "theorem C08_matcher_is_paths + correspondence `lex` (model vs PlyLexer, token by token incl. lineno/lexpos)",
-    "line numbers, literal classes, maximal munch": "correspondence `lex` + oracle `partition_lines`, `literals`, `punctuators` (not proof yet: C08(c),(e),(f) of DESIGN)",
+    "the line counter advances by exactly the newlines of the consumed text; a token's lineno is the counter where it starts": "theorems C08_rules_count_lines (kernel-decided on the regenerated rules: every rule cannot match a newline, or counts them, or matches only newlines) + C08_lineno / plyToken_lineno (soundness, every input)",
+    "literal classes, maximal munch": "correspondence `lex` + oracles `literals`, `punctuators` (not proof)",
 }
 ASSUMPTIONS = ["CR handling: '\\r' is skipped only between tokens (t_ignore)"]
 MODEL_COVERAGE = "all PLY rules (regenerated regex ASTs + actions), Lexer.token loop (Ply.lean)"
